@@ -515,7 +515,19 @@ void genCp(Rng& rng, CaseSpec& cs, int nx, int ny, int nz) {
     std::vector<double> pa(nz + 1), pb(nz + 1), pc(nz + 1), tmin(nz + 1, 0.0);
     pa[0] = rng.chance(0.7) ? rng.uniform(-0.08, 0.08) : 0.0; pb[0] = rng.chance(0.7) ? rng.uniform(-0.08, 0.08) : 0.0;
     pc[0] = pickLen(rng, style, 300, 3000);
+    // pinch-out: in 8 % of the grids all layer interfaces meet on the first pillar (node (0,0)): the layers have zero
+    // thickness there and grow linearly away from it.  (x - x0) + (y - y0) is positive on every other pillar because the
+    // node displacement is below a quarter of the smallest spacing.
+    const bool pinch = rng.chance(0.08);
+    if (pinch) d += " pinched-first-pillar";
     for (int k = 0; k < nz; ++k) {
+        if (pinch) {
+            const double rate = rng.uniform(0.02, 0.1);
+            pa[k + 1] = pa[k] + rate; pb[k + 1] = pb[k] + rate;
+            pc[k + 1] = pc[k] - rate * (b.px[b.node(0, 0)] + b.py[b.node(0, 0)]);
+            tmin[k] = rate * 0.04 * hmin;        // smallest thickness on any other pillar (scale of the twist / gap amplitudes)
+            continue;
+        }
         pa[k + 1] = pa[k] + (wedge ? rng.uniform(-0.02, 0.02) : 0.0);
         pb[k + 1] = pb[k] + (wedge ? rng.uniform(-0.02, 0.02) : 0.0);
         double m = 1e300;
@@ -528,9 +540,9 @@ void genCp(Rng& rng, CaseSpec& cs, int nx, int ny, int nz) {
     std::vector<double> off((size_t)nx * ny, 0.0);
     if (fmode == 1) { d += " fault-line"; const int fi = (int)rng.below(nx); const double thr = rng.uniform(-40, 40); for (int j = 0; j < ny; ++j) for (int i = fi; i < nx; ++i) off[i + (size_t)nx * j] = thr; }
     if (fmode == 2) { d += " faulted-columns"; for (auto& v : off) v = rng.uniform(-40, 40); }
-    const bool gaps = rng.chance(0.2);
+    const bool gaps = !pinch && rng.chance(0.2);
     if (gaps) d += " gaps";
-    cs.twisted = rng.chance(0.12);
+    cs.twisted = !pinch && rng.chance(0.12);
     if (cs.twisted) d += " twisted";
     b.prismatic = !cs.twisted;
     b.cz.resize(8 * b.ncell());
@@ -539,7 +551,8 @@ void genCp(Rng& rng, CaseSpec& cs, int nx, int ny, int nz) {
             const size_t nd = b.node(i + (n & 1), j + (n >> 1));
             double prevBottom = 0;
             for (int k = 0; k < nz; ++k) {
-                auto plane = [&](int kk) { return pc[kk] + pa[kk] * b.px[nd] + pb[kk] * b.py[nd] + off[i + (size_t)nx * j]; };
+                // (on the pinched pillar every interface has EXACTLY the depth of the top surface: no rounding noise in the zero thickness)
+                auto plane = [&](int kk) { if (pinch && nd == b.node(0, 0)) kk = 0; return pc[kk] + pa[kk] * b.px[nd] + pb[kk] * b.py[nd] + off[i + (size_t)nx * j]; };
                 double top = k == 0 ? plane(0) : prevBottom;
                 if (k == 0 && cs.twisted) top += rng.uniform(-0.2, 0.2) * tmin[0];
                 double bot = plane(k + 1);
